@@ -902,13 +902,11 @@ theorem gw_judge_answered (env : Env) (s : State) (σ : KG.Spec.LocalLimiter.SSt
 
 /-- **forwarded requests**: for every request the model hands to an upstream, every stage class of the judge stays
     silent on the model's output: the host resolves and is proxied, the identity is the expected one and the identity-bearing
-    fields are exactly the gateway's (C02's judge; `valuesCarried`: the identity has no white space at the ends of its values —
-    C02's known finding otherwise), the policy is `firstMatchSpec`'s, the endpoint is in that policy's upstream list, a
+    fields are exactly the gateway's (C02's judge, now unconditional: `c02_judge_model`), the policy is `firstMatchSpec`'s, the endpoint is in that policy's upstream list, a
     current server, eligible, and the schema admitted by C05's `demand` / C06's bucket. (The fidelity classes are C04's
     Boolean verdicts: `gw_forwarded_fidelity` proves them per key.) -/
 theorem gw_judge_stages (env : Env) (s : State) (σ : KG.Spec.LocalLimiter.SState) (r : Request) (f : Forwarded)
     (hrel : KG.Lemmas.LocalLimiter.Rel s.lim σ) (hwf : StateWF s) (h : (arrive env s r).2 = .forwarded f)
-    (hc : KG.Spec.Identity.valuesCarried false f.ctxUser = true)
     (obs : KG.Spec.Gateway.Obs) (ho : KG.Spec.Gateway.obsOf r (.forwarded f) = some obs) :
     KG.Spec.Gateway.judgeStages env s σ r obs = [] := by
   obtain ⟨up, x, n, g, recv, ctx, hparse, _, hx, hserve, hpop, hid, hfeq, _⟩ := arrive_forwarded h
@@ -929,14 +927,8 @@ theorem gw_judge_stages (env : Env) (s : State) (σ : KG.Spec.LocalLimiter.SStat
     exact this
   -- C02's judge on the identity-bearing fields
   have hjid : KG.Spec.Identity.judge x.b.cl.cfg.token false (.forward x.b.ctxUser) [f.identity] = [] := by
-    have hj := KG.Props.C02.c02_judge_model_exact x.b.cl.cfg.token r.lines (some x.b.requestor)
-      (env.authz (some x.b.p) x.b.requestor) false (by
-        intro id hid'
-        rw [KG.Props.C02.c02_forwarded_only_as_expected _ _ _ _ _ _ _ hid] at hid'
-        injection hid' with hid'
-        rw [← hid']
-        rw [hfeq] at hc
-        exact hc)
+    have hj := KG.Props.C02.c02_judge_model x.b.cl.cfg.token r.lines (some x.b.requestor)
+      (env.authz (some x.b.p) x.b.requestor) false
     rw [KG.Props.C02.c02_forwarded_only_as_expected _ _ _ _ _ _ _ hid, hid] at hj
     simp only [KG.Spec.Identity.judge, KG.Spec.Identity.upstreamOf, List.flatMap_cons, List.flatMap_nil, List.append_nil] at hj ⊢
     rw [hfeq]
